@@ -2463,10 +2463,11 @@ class HeapV(object):
 
 
 class ChanV(object):
-    __slots__ = ('queue',)
+    __slots__ = ('queue', 'cap')
 
-    def __init__(self):
+    def __init__(self, cap=None):
         self.queue = []
+        self.cap = cap          # None: unbounded mpsc::channel; n: mpsc::sync_channel(n)
 
 
 def _deref_obj(x, cls):
@@ -2626,6 +2627,37 @@ def m_send(it, args, fr, callee):
     while type(s) is Ref:
         s = s.cont[s.key]
     s.fields[0].queue.append(args[1])
+    return ok(UNIT)
+
+
+@model('std::sync::mpsc::sync_channel', 'mpsc::sync_channel', 'sync_channel')
+def m_sync_channel(it, args, fr, callee):
+    cap = it.concretize(args[0], 'sync_channel capacity')
+    ch = ChanV(cap)
+    return Agg('tuple', None, [Agg('SyncSender', None, [ch]), Agg('Receiver', None, [ch])])
+
+
+@model('SyncSender::try_send', 'std::sync::mpsc::SyncSender::try_send', 'mpsc::SyncSender::try_send')
+def m_try_send(it, args, fr, callee):
+    s = args[0]
+    while type(s) is Ref:
+        s = s.cont[s.key]
+    ch = s.fields[0]
+    if ch.cap is not None and len(ch.queue) >= ch.cap:
+        return err(Agg('TrySendError', 0, [args[1]]))       # TrySendError::Full(t)
+    ch.queue.append(args[1])
+    return ok(UNIT)
+
+
+@model('SyncSender::send', 'std::sync::mpsc::SyncSender::send', 'mpsc::SyncSender::send')
+def m_sync_send(it, args, fr, callee):
+    s = args[0]
+    while type(s) is Ref:
+        s = s.cont[s.key]
+    ch = s.fields[0]
+    if ch.cap is not None and len(ch.queue) >= ch.cap:
+        raise Unsupported('SyncSender::send on a full bounded channel blocks (single-threaded model)')
+    ch.queue.append(args[1])
     return ok(UNIT)
 
 
